@@ -6,10 +6,15 @@ inventory obligations fail to build): prints the generated entries that
 `Xt.Sites.covered` does not account for — the functions to look at. -/
 open Xt.Sites in
 #eval do
-  let un := uncovered Xt.Generated.sites covered
+  let un := uncoveredModuloMoves Xt.Generated.sites covered
   IO.println s!"UNCOVERED {un.length}"
   for (file, fn, kind, n) in un do
-    IO.println s!"UNCOVERED-SITE file={file} fn={fn} kind={kind} count={n} accounted={accounted covered (file, fn, kind, n)}"
+    IO.println s!"UNCOVERED-SITE file={file} fn={fn} kind={kind} count={n} accounted={accounted covered (file, fn, kind, n)} file-kind-total={fileKindTotal Xt.Generated.sites (file, fn, kind, n)} file-kind-accounted={fileKindAccounted covered (file, fn, kind, n)}"
+  -- Informational: sites the strict per-function rule would report but that
+  -- only moved inside their file.
+  for (file, fn, kind, n) in uncovered Xt.Generated.sites covered do
+    unless un.contains (file, fn, kind, n) do
+      IO.println s!"MOVED-SITE file={file} fn={fn} kind={kind} count={n}"
   -- Informational only (removing a site never breaks an obligation): accounts
   -- whose key no longer occurs in the sources and can be deleted.
   for c in covered do
